@@ -44,7 +44,7 @@ for d in sorted(glob.glob('/verif/seeded/*/')):
     ok = c.get('patch_applies')=='yes' and ' passed' in suite and c.get('demo_with_change','').startswith('exit 101') and c.get('demo_without_change','').startswith('exit 0')
     rows.append((name, m.get('title','')[:120], 'yes' if ok else 'NO', det))
 seed_tab='| seed | change (one line) | confirmed | registered check |\n|---|---|---|---|\n'+''.join('| %s | %s | %s | %s |\n'%tuple(str(x).replace('|','\\|').replace('\n',' ') for x in r) for r in rows)
-n_det=sum(1 for r in rows if 'quick: detected' in r[3]); n_late=sum(1 for r in rows if 'MISSED' in r[3] and 'strengthening the check: detected' in r[3]); n_miss=sum(1 for r in rows if 'MISSED' in r[3] and 'strengthening the check: detected' not in r[3]); n_unconf=sum(1 for r in rows if r[2]=='NO')
+n_det=sum(1 for r in rows if 'quick: detected' in r[3]); n_late=sum(1 for r in rows if 'quick: detected' not in r[3] and 'strengthening the check: detected' in r[3]); n_miss=sum(1 for r in rows if 'quick: detected' not in r[3] and 'strengthening the check: detected' not in r[3]); n_unconf=sum(1 for r in rows if r[2]=='NO')
 mut=[]
 for f in sorted(glob.glob('/verif/mutants/*/RESULTS.md')):
     pid=f.split('/')[-2]; n=len(glob.glob('/verif/mutants/%s/*.diff'%pid)); mut.append('%s (%d)'%(pid,n))
@@ -64,7 +64,7 @@ passes with it; the demonstration fails with it and passes without it) and ran t
 registered quick check against it. Full records: `seeded/<ID>-<k>/{patch.diff,
 seed_demo.rs, meta.json}`, table: `seeded/RESULTS.md`.
 
-Totals: %d seeds recorded, %d detected by the quick tier as first built, %d missed at first
+Totals: %d seeds recorded, %d detected by the quick tier as first built, %d missed at first (three of them as a machinery exit: a vacuity guard or a harness limit fired instead of a verdict)
 and detected after the check was strengthened (the strengthening is a commit in /verif and
 is described below), %d still missed, %d not confirmed (discarded as seeds, kept for the record).
 
